@@ -6,25 +6,37 @@
 cd "$(dirname "$0")"
 . ./env.sh
 mkdir -p bin evidence replays
-if ! go build -tags verif -o bin/verif ./cmd/verif 2>bin/build.log; then
+MODFLAG=""
+BIN=bin
+if [ -n "$VERIF_REPO" ]; then
+  BIN=bin/alt.$$
+  mkdir -p $BIN
+  trap 'rm -rf /verif/bin/alt.'$$ EXIT
+  # development aid only (sensitivity experiments on a scratch copy of the
+  # repository): registered checks never set VERIF_REPO and build against /repo
+  sed "s#=> /repo#=> $VERIF_REPO#" go.mod > $BIN/alt.mod
+  cp go.sum $BIN/alt.sum
+  MODFLAG="-modfile=$BIN/alt.mod"
+fi
+if ! go build $MODFLAG -tags verif -o $BIN/verif ./cmd/verif 2>$BIN/build.log; then
   echo "BUILD FAILED (exit 2, not a violation):" >&2
-  cat bin/build.log >&2
+  cat $BIN/build.log >&2
   exit 2
 fi
 if [ "$1" = "C07" ] || [ "$1" = "replay" -a -n "$VERIF_RACE" ]; then
-  if ! go build -race -tags verif -o bin/verif-race ./cmd/verif 2>bin/build-race.log; then
+  if ! go build $MODFLAG -race -tags verif -o $BIN/verif-race ./cmd/verif 2>$BIN/build-race.log; then
     echo "RACE BUILD FAILED (exit 2, not a violation):" >&2
-    cat bin/build-race.log >&2
+    cat $BIN/build-race.log >&2
     exit 2
   fi
 fi
 export VERIF_ROOT="$(pwd)"
 if [ "$1" = "replay" ] && grep -q '"rule": "C07/data-race' "$2" 2>/dev/null; then
-  go build -race -tags verif -o bin/verif-race ./cmd/verif 2>bin/build-race.log || exit 2
+  go build $MODFLAG -race -tags verif -o $BIN/verif-race ./cmd/verif 2>$BIN/build-race.log || exit 2
   export GORACE="log_path=$(mktemp -d)/racelog halt_on_error=0"
-  exec ./bin/verif-race replay "$2"
+  ./$BIN/verif-race replay "$2"; exit $?
 fi
 if [ "$1" = "replay" ]; then
-  exec ./bin/verif replay "$2"
+  ./$BIN/verif replay "$2"; exit $?
 fi
-exec ./bin/verif check "$1" --tier "${2:-quick}"
+./$BIN/verif check "$1" --tier "${2:-quick}"; exit $?
